@@ -161,7 +161,47 @@ func enumerate(tier string, shard, shards int, emit func(Case) bool) bool {
 	return textgen.EnumTexts(maxL, shard, shards, func(s string) bool { return emit(Case{Text: s}) })
 }
 
+// genDeep: deeply nested blocks and long runs of punctuation without any separation.
+func genDeep(t *rapid.T) Case {
+	depth := rapid.IntRange(5, 20).Draw(t, "depth")
+	var build func(d int) *rfc6.Node
+	build = func(d int) *rfc6.Node {
+		n := &rfc6.Node{Keyword: rapid.SampledFrom([]string{"c", "leaf", "a", "pattern"}).Draw(t, "kw")}
+		if rapid.IntRange(0, 2).Draw(t, "arg") == 0 {
+			n.HasArg, n.Arg = true, rapid.SampledFrom([]string{"x", "a b", ""}).Draw(t, "argv")
+		}
+		if d < depth {
+			n.Subs = append(n.Subs, build(d+1))
+			if rapid.IntRange(0, 3).Draw(t, "sibling") == 0 {
+				n.Subs = append(n.Subs, &rfc6.Node{Keyword: "s"})
+			}
+		}
+		return n
+	}
+	f := []*rfc6.Node{build(1)}
+	if rapid.Bool().Draw(t, "second-top") {
+		f = append(f, &rfc6.Node{Keyword: "t"})
+	}
+	p := rfc6.NewPrinter(textgen.Chooser{T: t})
+	p.Plain = true // no optional separators at all: runs of adjacent punctuation
+	p.Forest(f)
+	text := p.String()
+	if rapid.IntRange(0, 3).Draw(t, "mutate-deep") == 0 {
+		// one closer too many or too few
+		if rapid.Bool().Draw(t, "extra") {
+			text += "}"
+		} else if i := strings.LastIndex(text, "}"); i >= 0 {
+			text = text[:i] + text[i+1:]
+		}
+		return Case{Text: text}
+	}
+	return Case{Text: text, Intent: f, HasInt: true}
+}
+
 func gen(t *rapid.T) Case {
+	if rapid.IntRange(0, 11).Draw(t, "deep") == 0 {
+		return genDeep(t)
+	}
 	f := textgen.Forest(t)
 	text := textgen.Render(t, f)
 	if rapid.IntRange(0, 2).Draw(t, "mutate") == 0 {
@@ -179,7 +219,7 @@ func TestCheck(t *testing.T) {
 		ID:    "C02",
 		Level: "exploration",
 		Rule: "exhaustive part: every concatenation of up to L fragments from {a, pattern, SP, LF, TAB, CR, ; { } \" ' \\ + / * n}; " +
-			"random part: statement forests (depth <= 4, keywords incl. pattern, prefixed names, '+', '/x', multi-byte) with hostile argument strings, printed with random layout (unquoted / single / double quoted / 2-4 '+'-joined pieces, escapes, multi-line strings with continuation indentation by spaces and tabs below/at the quote column, trailing blanks, comments of both kinds incl. multi-line, CRLF between tokens, no whitespace where the boundary is determined), one third of them with 1-2 character mutations. " +
+			"random part: statement forests (depth <= 4, keywords incl. pattern, prefixed names, '+', '/x', multi-byte) with hostile argument strings, (one twelfth of the cases: chains nested 5-20 deep printed without any optional separator, i.e. long runs of adjacent punctuation, sometimes with one closer too many or too few) printed with random layout (unquoted / single / double quoted / 2-4 '+'-joined pieces, escapes, multi-line strings with continuation indentation by spaces and tabs below/at the quote column, trailing blanks, comments of both kinds incl. multi-line, CRLF between tokens, no whitespace where the boundary is determined), one third of them with 1-2 character mutations. " +
 			"Oracle: differential against the harness's RFC 7950 section 6 reader (acceptance, keyword, argument presence, exact argument, nesting, order; nil statements and non-empty error on rejection); printed texts are additionally cross-checked against the printer's intent. " +
 			"Non-trivial = the reference accepts with >= 1 statement, or the text contains a quote, comment opener, '+', backslash or brace; distinct by text",
 		Assumptions: []string{
